@@ -1,4 +1,5 @@
 import TsVerif.C02.Props
+import TsVerif.C02.EditProps
 #print axioms TsVerif.C02.summarize_padding_size
 #print axioms TsVerif.C02.spans_nested
 #print axioms TsVerif.C02.siblings_ordered
@@ -12,3 +13,9 @@ import TsVerif.C02.Props
 #print axioms TsVerif.C02.extentOf_snoc
 #print axioms TsVerif.C02.yields_total
 #print axioms TsVerif.C02.rowcol_by_newlines
+#print axioms TsVerif.C02.lex_skip_progress
+#print axioms TsVerif.C02.lex_terminates
+#print axioms TsVerif.C02.measure_eq_lengthOf
+#print axioms TsVerif.C02.yields_cons
+#print axioms TsVerif.C02.edit_preserves_summaries
+#print axioms TsVerif.C02.edited_spans_nested
